@@ -111,3 +111,8 @@ CHECKS["C12"] = _resmgr("C12",
     "non-empty runtime cpuset and coexist with containers that cause re-balancing (shared-set shrink/grow, balloon inflate/deflate, zone widening), with updates, synchronize and reconfigure; "
     "oracle: every adjustment/update addressed to an opted-out container carries no plugin-chosen cpus / no different mems; non-trivial = states with at least two live containers",
     "10 scenarios, depth 5", "11 scenarios, depth 6")
+CHECKS["C13"] = _resmgr("C13",
+    "explicit-state BFS over histories with a configuration update offered at every request boundary (identical, every rejection kind, valid changes), both policies; oracle: identical config changes nothing and pushes no real change; "
+    "a rejected update leaves containers, zones and policy state untouched and - twin execution on a second real instance without the rejected updates - later decisions identical; after an accepted update all C01-C05/C02/C09 clauses hold; "
+    "non-trivial = states with at least two live containers",
+    "5 scenarios x 6-9 configurations, depth 4", "5 scenarios, depth 5")
